@@ -692,6 +692,92 @@ Section CTX.
   Qed.
 End CTX.
 
+(* ------------------------------------------------------------------ the complexity estimate (planner.planEval) and the
+   tags planner without a query (model/ScansTq.v, module TE) *)
+Section EVAL.
+  Variable info : string -> tinfo.
+  Variable c : P.ctx.
+  Hypothesis Htab : tq_tables info c.
+  Hypothesis Hctx : tq_ctx_ok c.
+  Let c' := TE.eval_ctx c.
+  Notation B := (scan_bounded info (tq_win c)).
+
+  Lemma eval_ctx_ok : tq_ctx_ok c'.
+  Proof. destruct Hctx as [H1 H2 H3 H4]. constructor; assumption. Qed.
+  Lemma eval_tbl : info (P.attrs_table c') = idx_untyped.
+  Proof. apply (tt_attrs_dist info c Htab). Qed.
+
+  Lemma attr_condition_eval_good terms cond agg prefix n s :
+    TE.attr_condition_eval c terms cond agg prefix n = P.Ok s -> tgood B s.
+  Proof.
+    unfold TE.attr_condition_eval. unfold P.bind at 1. fold c'.
+    destruct (P.attr_condition c' terms cond agg n) as [main| |] eqn:E; try discriminate.
+    apply attr_condition_idx in E. destruct E as [cols [extra [hv [-> [Hc [Hex Hhv]]]]]].
+    unfold P.bind at 1. destruct (P.map_res P.get_term terms) as [scs| |] eqn:Es; try discriminate.
+    pose proof (map_res_get_term _ _ Es) as Hs.
+    assert (Hn : nosubs scs) by (apply nosubs_forall; eapply Forall_impl; [|exact Hs]; intros e [H _]; exact H).
+    intros [= <-].
+    change (tgood B (idx_sel c' (P.attrs_table c') [] [T.Col (T.StrV prefix) "prefix"; T.Col (T.Id "count()") "_count"] [] extra None
+                      [T.BitSet scs; T.Id "prefix"] [] None)).
+    unfold tgood. rewrite idx_sel_scans;
+      [| reflexivity | constructor | exact Hex | reflexivity
+       | unfold nosubs; cbn [flat_map tq_escans app]; rewrite app_nil_r; exact Hn | reflexivity | reflexivity].
+    cbn [wsc flat_map app]. constructor; [|constructor].
+    apply (idx_scan_bounded info c' eval_ctx_ok); [exact eval_tbl | constructor | exact Hex].
+  Qed.
+
+  Lemma simple_eval_good sc prefix n s : TE.simple_eval c sc prefix n = P.Ok s -> tgood B s.
+  Proof.
+    unfold TE.simple_eval. unfold P.bind at 1. destruct (P.check sc) as [u| |]; try discriminate.
+    destruct (P.analyze (Traceql.sc_head sc)) as [cond terms].
+    destruct (Traceql.sel_attr (Traceql.sc_head sc)); [apply attr_condition_eval_good|].
+    intros [= <-]. unfold TE.attrless_eval, tgood. rewrite tq_sscans_eq. cbn. constructor.
+  Qed.
+
+  Lemma ep_eval_good n t : forall s, TE.ep_eval c n t = P.Ok s -> tgood B s.
+  Proof.
+    induction t as [sc prefix | prefix fn ops IHops] using ep_ind'; intros s; cbn [TE.ep_eval].
+    - apply simple_eval_good.
+    - unfold P.bind at 1.
+      match goal with |- context [match ?g ops with _ => _ end] => set (go := g) end.
+      assert (Hgo : forall sels, go ops = P.Ok sels -> Forall (tgood B) sels).
+      { induction IHops as [|x r Hx Hr IHr]; intros sels; unfold go; cbn; fold go; [intros [= <-]; constructor|].
+        unfold P.bind at 1. destruct (TE.ep_eval c n x) as [y| |] eqn:Ey; try discriminate.
+        unfold P.bind at 1. destruct (go r) as [ys| |] eqn:Eys; try discriminate.
+        intros [= <-]. constructor; [apply Hx; reflexivity | apply IHr; reflexivity]. }
+      destruct (go ops) as [sels| |]; try discriminate. specialize (Hgo sels eq_refl).
+      intros [= <-]. unfold tgood. rewrite tq_sscans_eq.
+      cbn [wsc flat_map app tq_own_scan tq_base_table tq_join_scan fst snd oe tq_escans jes]. rewrite !app_nil_r.
+      induction Hgo as [|x r Hx Hr IH]; cbn [flat_map]; [constructor | apply Forall_app; split; assumption].
+  Qed.
+
+  Theorem plan_eval_good q n s : TE.plan_eval q c n = P.Ok s -> tgood B s.
+  Proof.
+    unfold TE.plan_eval. unfold P.bind at 1.
+    match goal with |- match ?X with _ => _ end = _ -> _ => destruct X as [main| |] eqn:E end; try discriminate.
+    assert (Hm : tgood B main).
+    { destruct (Traceql.sc_tail q).
+      - destruct (P.plan_complex None 0 None q) as [[[t|] cnt]|]; try discriminate. apply (ep_eval_good n t), E.
+      - apply (simple_eval_good _ _ _ _ E). }
+    intros [= <-]. unfold TE.eval_finalizer. apply tgood_set_with.
+    - constructor; [exact Hm | constructor].
+    - rewrite tq_sscans_eq. cbn. constructor.
+  Qed.
+
+  Lemma all_tags_good : tgood B (TE.all_tags c).
+  Proof.
+    unfold TE.all_tags, tgood. rewrite tq_sscans_eq.
+    cbn [wsc flat_map app tq_own_scan tq_base_table tq_join_scan fst snd oe tq_escans jes].
+    constructor; [|constructor]. destruct Hctx as [H1 H2 H3 H4].
+    eapply idx_bounded_dates; [apply Htab | | |].
+    - unfold bounds. cbn [sc_conj tq_ocv oconjs cv cv_lop map conjs flat_map app].
+      unfold classify, col_is. cbn [split_path after_last_dot String.eqb Ascii.eqb Bool.eqb existsb orb andb sc_tsn ts_names map cv shadows_ts ts_alias_of flat_map app is_ts_path ends_with].
+      unfold date_bnd. rewrite (ffd_from_val c Hctx), (to_date_val c Hctx). cbn. reflexivity.
+    - unfold tq_win. cbn [w_from]. unfold day_of_ns. apply Z.div_le_mono; [reflexivity | lia].
+    - unfold tq_win. cbn [w_to]. apply day_mono. lia.
+  Qed.
+End EVAL.
+
 (* ------------------------------------------------------------------ the theorems, closed *)
 Theorem tq_plan_scans_bounded info c q m n s :
   tq_tables info c -> tq_ctx_ok c -> P.plan q m c n = P.Ok s ->
@@ -707,6 +793,19 @@ Theorem tq_tags_scans_bounded info c q m n s :
   tq_tables info c -> tq_ctx_ok c -> m <> P.MSearch -> P.plan q m c n = P.Ok s ->
   Forall (scan_bounded info (tq_win c)) (tq_scans s).
 Proof. intros Ht Hc Hm Hp. exact (plan_tags_good info c Ht Hc q m n s Hm Hp). Qed.
+
+(* the complexity estimate sent before every search / tags / values request with a query *)
+Theorem tq_eval_scans_bounded info c q n s :
+  tq_tables info c -> tq_ctx_ok c -> TE.plan_eval q c n = P.Ok s ->
+  Forall (scan_bounded info (tq_win c)) (tq_scans s).
+Proof. intros Ht Hc Hp. exact (plan_eval_good info c Ht Hc q n s Hp). Qed.
+
+(* /api/v2/search/tags and /api/v2/search/tag/{tag}/values without a query *)
+Theorem tq_all_tags_scans_bounded info c key :
+  tq_tables info c -> tq_ctx_ok c ->
+  Forall (scan_bounded info (tq_win c)) (tq_scans (TE.all_tags c)) /\
+  Forall (scan_bounded info (tq_win c)) (tq_scans (P.all_values c key)).
+Proof. intros Ht Hc. split; [exact (all_tags_good info c Ht Hc) | exact (all_values_good info c Ht Hc key)]. Qed.
 
 (* ------------------------------------------------------------------ witnesses *)
 Open Scope string_scope.
@@ -745,4 +844,11 @@ Lemma tq_examples :
   (match tq_res tq_q1 P.MSearch with Some s => Nat.leb 5 (List.length (tq_scans s)) && tq_all_bounded_b s | None => false end = true) /\
   (match tq_res tq_q0 P.MTags with Some s => Nat.leb 2 (List.length (tq_scans s)) && tq_all_bounded_b s | None => false end = true) /\
   (match tq_res tq_q0 (P.MValues "service.name") with Some s => Nat.leb 2 (List.length (tq_scans s)) && tq_all_bounded_b s | None => false end = true).
+Proof. repeat split; vm_compute; reflexivity. Qed.
+
+Definition tq_eval_res (q : Traceql.script) : option T.select := match TE.plan_eval q tq_ctx0 1 with P.Ok s => Some s | _ => None end.
+Lemma tq_eval_examples :
+  (match tq_eval_res tq_q0 with Some s => Nat.leb 1 (List.length (tq_scans s)) && tq_all_bounded_b s | None => false end = true) /\
+  (match tq_eval_res tq_q1 with Some s => Nat.leb 2 (List.length (tq_scans s)) && tq_all_bounded_b s | None => false end = true) /\
+  List.length (tq_scans (TE.all_tags tq_ctx0)) = 1%nat.
 Proof. repeat split; vm_compute; reflexivity. Qed.
